@@ -17,9 +17,19 @@ Import ListNotations.
 
 Definition name := nat.
 
-(* Values that flow through a pipeline: an int, or something that is not an int (a str). *)
-Inductive val := VInt (z : Z) | VStr (z : Z).
-Definition is_int (v : val) : bool := match v with VInt _ => true | VStr _ => false end.
+(* Values that flow through a pipeline: an int, a str, a float64 array, an int64 array. *)
+Inductive val := VInt (z : Z) | VStr (z : Z) | VArrF (z : Z) | VArrI (z : Z).
+Definition is_int (v : val) : bool := match v with VInt _ => true | _ => false end.
+(* what a (non-None part of a) parameter annotation accepts: int, np.ndarray[Any, np.dtype[np.float64]],
+   np.ndarray[Any, np.dtype[np.int64]] -- the last two depend on the dtype of the value, not on its class *)
+Inductive tykind := TInt | TFloatVec | TIntVec.
+Definition accepts (t : tykind) (v : val) : bool :=
+  match t, v with
+  | TInt, VInt _ => true
+  | TFloatVec, VArrF _ => true
+  | TIntVec, VArrI _ => true
+  | _, _ => false
+  end.
 
 (* Error classes as observed at Pipeline.run:
    EMissing  PipelineError("input .. not specified" / "no data available ..") or KeyError(node)
@@ -41,7 +51,7 @@ Inductive prog :=
 
 (* A parameter after wiring resolution.  typed=false: no annotation (or a bare TypeVar, which
    accepts everything).  nullable: the annotation accepts None. *)
-Record param := { p_src : option name; p_lazy : bool; p_typed : bool; p_nullable : bool }.
+Record param := { p_src : option name; p_lazy : bool; p_typed : bool; p_nullable : bool; p_ty : tykind }.
 
 Inductive node :=
 | Input (typed nullable : bool)
@@ -55,10 +65,10 @@ Fixpoint lookup {A} (n : nat) (l : list (nat * A)) : option A :=
 
 Definition is_none {A} (o : option A) : bool := match o with None => true | Some _ => false end.
 
-(* is_compatible_data(v, itype) for the annotations int / int|None / none *)
-Definition compat (typed nullable : bool) (v : option val) : bool :=
-  if typed then match v with None => nullable | Some x => is_int x end else true.
-Definition p_compat (p : param) (v : option val) : bool := compat (p_typed p) (p_nullable p) v.
+(* is_compatible_data(v, itype) for the annotations T / T|None / none, T one of [tykind] *)
+Definition compat (typed nullable : bool) (t : tykind) (v : option val) : bool :=
+  if typed then match v with None => nullable | Some x => accepts t x end else true.
+Definition p_compat (p : param) (v : option val) : bool := compat (p_typed p) (p_nullable p) (p_ty p) v.
 (* `not is_compatible_data(None, itype)` with a truthy itype *)
 Definition p_strict (p : param) : bool := p_typed p && negb (p_nullable p).
 
@@ -329,7 +339,7 @@ End Run.
 (* builder side                                                                                 *)
 (* ------------------------------------------------------------------------------------------ *)
 
-Record bparam := { bp_name : nat; bp_conn : option name; bp_lazy : bool; bp_typed : bool; bp_nullable : bool }.
+Record bparam := { bp_name : nat; bp_conn : option name; bp_lazy : bool; bp_typed : bool; bp_nullable : bool; bp_ty : tykind }.
 Inductive bnode :=
 | BInput (typed nullable : bool)
 | BLiteral (v : val)
@@ -344,7 +354,7 @@ Record builder := {
 (* build_config: `if iname not in c_ins and iname in self._default_connections` *)
 Definition resolve_param (defaults : list (nat * name)) (p : bparam) : param :=
   {| p_src := match bp_conn p with Some s => Some s | None => lookup (bp_name p) defaults end;
-     p_lazy := bp_lazy p; p_typed := bp_typed p; p_nullable := bp_nullable p |}.
+     p_lazy := bp_lazy p; p_typed := bp_typed p; p_nullable := bp_nullable p; p_ty := bp_ty p |}.
 Definition resolve_node (defaults : list (nat * name)) (nd : bnode) : node :=
   match nd with
   | BInput t n => Input t n
@@ -377,6 +387,30 @@ Definition acyclic_b (g : graph) : bool :=
 Definition build (b : builder) : option graph :=
   let g := resolve b in if acyclic_b g then Some g else None.
 
+(* editing a builder between builds: default_connection(name, node) replaces the default of that
+   parameter name; connect(comp, name=node) sets/overrides an explicit connection; alias(a, node) *)
+Inductive edit := EDefault (pname : nat) (t : name) | EConnect (c : name) (pname : nat) (t : name) | EAlias (a t : name).
+Definition set_conn (pname : nat) (t : name) (p : bparam) : bparam :=
+  if Nat.eqb (bp_name p) pname
+  then {| bp_name := bp_name p; bp_conn := Some t; bp_lazy := bp_lazy p; bp_typed := bp_typed p;
+          bp_nullable := bp_nullable p; bp_ty := bp_ty p |}
+  else p.
+Definition apply_edit (b : builder) (e : edit) : builder :=
+  match e with
+  | EDefault pn t =>
+      {| b_nodes := b_nodes b;
+         b_defaults := (pn, t) :: filter (fun d => negb (Nat.eqb (fst d) pn)) (b_defaults b);
+         b_aliases := b_aliases b |}
+  | EConnect c pn t =>
+      {| b_nodes := map (fun nn => if Nat.eqb (fst nn) c
+                                   then (fst nn, match snd nn with
+                                                 | BComp ps body => BComp (map (set_conn pn t) ps) body
+                                                 | x => x end)
+                                   else nn) (b_nodes b);
+         b_defaults := b_defaults b; b_aliases := b_aliases b |}
+  | EAlias a t => {| b_nodes := b_nodes b; b_defaults := b_defaults b; b_aliases := (a, t) :: b_aliases b |}
+  end.
+
 (* Pipeline.node(name): aliases first *)
 Definition resolve_alias (aliases : list (name * name)) (n : name) : name :=
   match lookup n aliases with Some t => t | None => n end.
@@ -389,6 +423,8 @@ Inductive atom := AArg (i : nat) | AForced (i : nat).
 Inductive bexp :=
 | BNone
 | BStr (z : Z)
+| BArrF (z : Z)
+| BArrI (z : Z)
 | BAtom (a : atom)                               (* pass a received value through unchanged *)
 | BLin (c : Z) (terms : list (Z * atom)).        (* c + sum coef * num(atom) *)
 Inductive bprog :=
@@ -403,11 +439,16 @@ Definition atom_val (args : list (option val)) (forced : list (nat * option val)
   | AForced i => match lookup i forced with Some v => v | None => None end
   end.
 Definition num (v : option val) : Z :=
-  match v with None => (-1)%Z | Some (VInt z) => z | Some (VStr z) => (1000003 + z)%Z end.
+  match v with
+  | None => (-1)%Z | Some (VInt z) => z | Some (VStr z) => (1000003 + z)%Z
+  | Some (VArrF z) => (2000003 + z)%Z | Some (VArrI z) => (3000003 + z)%Z
+  end.
 Definition eval_bexp (args : list (option val)) (forced : list (nat * option val)) (e : bexp) : option val :=
   match e with
   | BNone => None
   | BStr z => Some (VStr z)
+  | BArrF z => Some (VArrF z)
+  | BArrI z => Some (VArrI z)
   | BAtom a => atom_val args forced a
   | BLin c terms =>
       Some (VInt (fold_left (fun acc ta => (acc + fst ta * num (atom_val args forced (snd ta)))%Z) terms c))
@@ -425,15 +466,18 @@ Definition body_of (b : bprog) : list (option val) -> prog := fun args => interp
 Definition fallback_body : list (option val) -> prog :=
   fun a => match nth 0 a None with Some v => Ret (Some v) | None => Force 1 (fun r => Ret r) end.
 Definition fallback_params (primary fallback : name) : list param :=
-  [ {| p_src := Some primary; p_lazy := false; p_typed := false; p_nullable := true |};
-    {| p_src := Some fallback; p_lazy := true; p_typed := false; p_nullable := true |} ].
+  [ {| p_src := Some primary; p_lazy := false; p_typed := false; p_nullable := true; p_ty := TInt |};
+    {| p_src := Some fallback; p_lazy := true; p_typed := false; p_nullable := true; p_ty := TInt |} ].
 
 (* ------------------------------------------------------------------------------------------ *)
 (* decidable equalities and the observation compared with the implementation                   *)
 (* ------------------------------------------------------------------------------------------ *)
 
 Definition val_eqb (a b : val) : bool :=
-  match a, b with VInt x, VInt y => Z.eqb x y | VStr x, VStr y => Z.eqb x y | _, _ => false end.
+  match a, b with
+  | VInt x, VInt y | VStr x, VStr y | VArrF x, VArrF y | VArrI x, VArrI y => Z.eqb x y
+  | _, _ => false
+  end.
 Definition oval_eqb (a b : option val) : bool :=
   match a, b with None, None => true | Some x, Some y => val_eqb x y | _, _ => false end.
 Definition exn_eqb (a b : exn) : bool :=
@@ -496,4 +540,15 @@ Definition agree_case (b : builder) (built : bool) (runs : list obs_run) : bool 
   match build b with
   | None => negb built
   | Some g => built && forallb (agree_run true (2 + length g) g (b_aliases b)) runs
+  end.
+
+(* a builder history: edits, then build() and runs on the built pipeline; the builder carries on to
+   the next stage.  Every built pipeline must be the one the builder's state at that moment denotes
+   (build() is a function of that state and leaves it unchanged). *)
+Fixpoint agree_history (b : builder) (stages : list (list edit * bool * list obs_run)) : bool :=
+  match stages with
+  | [] => true
+  | (edits, built, runs) :: t =>
+      let b' := fold_left apply_edit edits b in
+      agree_case b' built runs && agree_history b' t
   end.
